@@ -30,7 +30,8 @@ structure TState where
   cur : MVMap := {}
   /-- `t.root.mutated()`; a fresh tree starts with `&leafNode{mut: true}`. -/
   mutated : Bool := true
-  /-- `t.lastSnapRoot` (nil after every Open). -/
+  /-- `t.lastSnapRoot`: nil only in a freshly CREATED tree; `Open` of a stored tree sets it to the root
+  it loaded. -/
   lastSnap : Option MVMap := none
   insSinceFlush : Nat := 0
   insSinceCleanup : Nat := 0
@@ -85,12 +86,13 @@ def preFlush (s : TState) (sz : Nat) : TState :=
 def postFlush (s : TState) : TState :=
   if s.insSinceFlush ≥ s.cfg.flushThld then s.flushTree s.cfg.cleanupNonzero false else s
 
-/-- A failing `root.insert` with a mutated root: back to `lastSnapRoot`, or to a FRESH EMPTY tree when
-`lastSnapRoot == nil` (which is the case after every Open). An unmutated root was not touched. -/
+/-- A failing `root.insert` with a mutated root: back to `lastSnapRoot` (the last root stored on disk:
+written by a flush or loaded by `Open`), or to a fresh empty tree when `lastSnapRoot == nil` (only in a
+tree created from scratch that was never flushed: nothing is stored). An unmutated root was not touched. -/
 def rollback (s : TState) : TState :=
   if s.mutated then
     match s.lastSnap with
-    | none => { s with cur := { block0 := s.cur.block0 }, mutated := true }
+    | none => { s with cur := {}, mutated := true }
     | some m => { s with cur := m, mutated := false }
   else s
 
@@ -197,7 +199,8 @@ def bestDump (loadedId : Nat) : List MVMap → Option MVMap
 /-- `Open` on the directory left by a clean `Close`: the newest `commit<id>` folder wins (a dump
 written by `Compact` replaces the tree it was taken from, including everything inserted into that
 tree afterwards; older folders are discarded); root ts = content ts, raised to the TIMESTAMP
-file's value if that is larger. -/
+file's value if that is larger (`setTs`: a mutated copy). The root as loaded — before `setTs` — is
+`lastSnapRoot`: a failing insert rolls back to it, a snapshot may re-use it. -/
 def reopen (s : TState) : TState :=
   if !s.closed then s else
   let (base, tsf, id, cnt) :=
@@ -206,7 +209,7 @@ def reopen (s : TState) : TState :=
     | none => (s.cur, s.tsFile, s.loadedId, s.clogCount)
   let c := base.contentTs
   { cfg := s.cfg, cur := { base with ts := if tsf > c then tsf else c }, mutated := decide (tsf > c),
-    lastSnap := none, clogCount := cnt, tsFile := tsf, loadedId := id, dumps := [],
+    lastSnap := some { base with ts := c }, clogCount := cnt, tsFile := tsf, loadedId := id, dumps := [],
     snaps := s.snaps }   -- (`closed` implies `snaps = []`: `close` refuses otherwise)
 
 /-- The operations of the harness / driver as one type (for statements over operation lists). -/
